@@ -14,6 +14,14 @@ pub fn verif_dir() -> PathBuf {
         .unwrap_or_else(|_| PathBuf::from("/verif"))
 }
 
+/// where evidence and replay files are written (sensitivity runs against scratch copies must
+/// not overwrite the evidence of the real tree)
+pub fn out_dir() -> PathBuf {
+    std::env::var("PCKB_OUT_DIR")
+        .map(PathBuf::from)
+        .unwrap_or_else(|_| verif_dir().join("evidence"))
+}
+
 #[derive(Clone, Copy, Debug, PartialEq, Eq)]
 pub enum Tier {
     Quick,
@@ -57,6 +65,7 @@ pub fn fp<T: Hash>(t: &T) -> u64 {
 // ---------------------------------------------------------------------------------------
 thread_local! {
     static LAST_PANIC: RefCell<Option<String>> = RefCell::new(None);
+    static IN_GUARD: std::cell::Cell<u32> = std::cell::Cell::new(0);
 }
 
 pub fn install_panic_hook() {
@@ -73,8 +82,8 @@ pub fn install_panic_hook() {
         } else {
             "<non-string panic>".to_string()
         };
-        // harness-internal failures must stay loud
-        if msg.starts_with("harness:") || loc.contains("/verif/") {
+        // panics outside `guard` are harness failures and must stay loud
+        if msg.starts_with("harness:") || IN_GUARD.with(|g| g.get()) == 0 {
             default(info);
         }
         LAST_PANIC.with(|p| *p.borrow_mut() = Some(format!("{} @ {}", msg, loc)));
@@ -83,7 +92,10 @@ pub fn install_panic_hook() {
 
 /// Run a call into the code under test; a panic becomes Err(message).
 pub fn guard<T>(f: impl FnOnce() -> T) -> Result<T, String> {
-    match panic::catch_unwind(AssertUnwindSafe(f)) {
+    IN_GUARD.with(|g| g.set(g.get() + 1));
+    let r = panic::catch_unwind(AssertUnwindSafe(f));
+    IN_GUARD.with(|g| g.set(g.get().saturating_sub(1)));
+    match r {
         Ok(v) => Ok(v),
         Err(_) => {
             let m = LAST_PANIC
@@ -279,8 +291,7 @@ impl Run {
 
     /// Writes replay files + evidence, prints the verdict lines, returns the exit code.
     pub fn finish(mut self) -> i32 {
-        let vdir = verif_dir();
-        let ev_dir = vdir.join("evidence");
+        let ev_dir = out_dir();
         let rp_dir = ev_dir.join("replay");
         let _ = std::fs::create_dir_all(&rp_dir);
 
